@@ -44,7 +44,7 @@ def plan(tier, seed):
 
 def required(tier):
     return {"alone_vs_joint_columns": 100, "subset_permutation_columns": 60, "assemble_haplotype_containment_checked": 30,
-            "pool_read_matrix_checked": 30, "pool_vs_merged_records": 30, "bam_order_runs": 16, "sample_in_two_pools_runs": 8, "datasets_with_shared_bam": 4}
+            "pool_read_matrix_checked": 30, "pool_vs_merged_records": 30, "bam_order_runs": 16, "sample_in_two_pools_runs": 8, "datasets_with_shared_bam": 4, "pool_files_with_interleaved_pools": 4}
 
 
 def argv(ds, prog, bams, hap=None, ploidy_file=None, extra=()):
@@ -194,10 +194,26 @@ def run_shard(tier, seed, spec, col):
         a, b = ds.samples[0], ds.samples[1]
         c = ds.samples[2]
         pool_file = os.path.join(root, "pools.txt")
+        lines = ["%s\tP1" % a, "%s\tP1" % b, "%s\tP2" % c, "%s\tP2" % a]  # sample a is in two pools
+        lines += ["%s\t%s" % (s, s) for s in ds.samples[3:]]
+        # the order of lines in a pool file carries no meaning: grouped by pool, sorted by sample (pools interleaved) or shuffled
+        layout = ["by-pool", "by-sample", "shuffled"][(dI + spec["shard"]) % 3]
+        if layout == "by-sample":
+            lines.sort()
+        elif layout == "shuffled":
+            lines = [lines[k] for k in rng.permutation(len(lines))]
+        col.add_to_set("pool_file_layouts", layout)
+        if [ln.split("\t")[1] for ln in lines] != sorted(ln.split("\t")[1] for ln in lines) and len({ln.split("\t")[1] for ln in lines}) > 1:
+            pools_seen, contiguous = [], True
+            for ln in lines:
+                p = ln.split("\t")[1]
+                if pools_seen and pools_seen[-1] != p and p in pools_seen:
+                    contiguous = False
+                pools_seen.append(p)
+            if not contiguous:
+                col.count("pool_files_with_interleaved_pools")
         with open(pool_file, "w") as fh:
-            fh.write("%s\tP1\n%s\tP1\n%s\tP2\n%s\tP2\n" % (a, b, c, a))  # sample a is in two pools
-            for s in ds.samples[3:]:
-                fh.write("%s\t%s\n" % (s, s))
+            fh.write("\n".join(lines) + "\n")
         pool_members = {"P1": [a, b], "P2": [c, a]}
         pool_ploidy = os.path.join(root, "pool_ploidy.txt")
         with open(pool_ploidy, "w") as fh:
@@ -262,11 +278,22 @@ def run_shard(tier, seed, spec, col):
                     col.count("pool_vs_merged_records")
                     for s in hP.samples:
                         x, y = rp[key].samples[s], rm[key].samples[s]
+                        # the pool and the merged BAM present the same reads in a different order, so float sums differ in the
+                        # last ulp: on an exact posterior tie (equal GPM) the two runs may pick different maximisers, and the
+                        # statistics of the chosen mode (SPM, SQ) then legitimately differ
+                        tie = False
+                        if x.get("GT") != y.get("GT"):
+                            try:
+                                tie = abs(float(x["GPM"]) - float(y["GPM"])) <= 0.0015
+                            except (KeyError, ValueError):
+                                tie = False
+                            if tie:
+                                col.count("pool_vs_merged_ties_skipped")
+                            else:
+                                col.violation("pool-result-differs-from-merged-bam", "call-exact %s:%d %s GT %s GPM %s (pool) vs GT %s GPM %s (merged BAM)"
+                                              % (key[0], key[1], s, x.get("GT"), x.get("GPM"), y.get("GT"), y.get("GPM")), case)
                         for k2 in x:
-                            if k2 == "GT":
-                                gpm = float(x.get("GPM", "0") or 0) if x.get("GPM", ".") != "." else 0.0
-                                if x[k2] != y[k2] and gpm >= 0.6:
-                                    col.violation("pool-result-differs-from-merged-bam", "call-exact %s:%d %s GT %s (pool) vs %s (merged), GPM %s" % (key[0], key[1], s, x[k2], y[k2], x.get("GPM")), case)
+                            if k2 == "GT" or (tie and k2 in ("SPM", "SQ", "MEC", "MECP")):
                                 continue
                             xs, ys = x[k2].split(","), y[k2].split(",")
                             if len(xs) != len(ys):
